@@ -224,6 +224,39 @@ def set_updates_to_rebinding(fn, stats: Dict[str, int]) -> None:
     rewrite(fn.body)
 
 
+def _sink_return(st: ast.If, r: str):
+    """if every leaf branch of the if/elif/else chain ends with `r = E` (and r is not otherwise used in the chain after
+    being assigned), return the chain with `return E` at the leaves; else None"""
+    import copy as _copy
+
+    def conv(body):
+        if not body:
+            return None
+        last = body[-1]
+        if isinstance(last, ast.Assign) and len(last.targets) == 1 and isinstance(last.targets[0], ast.Name) and last.targets[0].id == r:
+            if any(_mentions(x, r) for x in body[:-1]) or _mentions(last.value, r):
+                return None
+            ret = ast.Return(value=last.value)
+            ast.copy_location(ret, last)
+            return body[:-1] + [ret]
+        if isinstance(last, ast.If) and last.orelse:
+            if any(_mentions(x, r) for x in body[:-1]) or _mentions(last.test, r):
+                return None
+            a, b = conv(last.body), conv(last.orelse)
+            if a is None or b is None:
+                return None
+            n = ast.If(test=last.test, body=a, orelse=b)
+            ast.copy_location(n, last)
+            return body[:-1] + [n]
+        if isinstance(last, (ast.Return, ast.Raise)):
+            return body if not any(_mentions(x, r) for x in body) else None
+        return None
+    if not st.orelse or _mentions(st.test, r):
+        return None
+    res = conv([st])
+    return res[0] if res else None
+
+
 def _rewrite_block(body: List[ast.stmt], in_function: bool, stats: Dict[str, int], fn) -> List[ast.stmt]:
     out: List[ast.stmt] = []
     i = 0
@@ -261,6 +294,42 @@ def _rewrite_block(body: List[ast.stmt], in_function: bool, stats: Dict[str, int
             stats["ifexp"] += 1
             body[i] = new
             continue  # re-examine the new statement (else-after-return, nested conditional expressions)
+        if in_function and isinstance(st, ast.If) and st.orelse and not (len(st.orelse) == 1 and isinstance(st.orelse[0], ast.If)):
+            from .canon import positive_test
+            pos = positive_test(st.test)
+            if pos is not None:  # `if not c: A else: B` -> `if c: B else: A`
+                st.test, st.body, st.orelse = pos, st.orelse, st.body
+                stats["flip"] += 1
+        if in_function and isinstance(st, (ast.For, ast.AsyncFor)) and not st.orelse and len(st.body) == 1 and isinstance(st.body[0], ast.If) and not st.body[0].orelse \
+                and len(st.body[0].body) == 1 and isinstance(st.body[0].body[0], ast.Return) and isinstance(st.body[0].body[0].value, ast.Constant) \
+                and isinstance(st.body[0].body[0].value.value, bool) and i + 1 < len(body) and isinstance(body[i + 1], ast.Return) and isinstance(body[i + 1].value, ast.Constant) \
+                and body[i + 1].value.value is (not st.body[0].body[0].value.value) and isinstance(st, ast.For):
+            # for x in it: if c: return True / return False  ->  return any(c for x in it)   (dual: all)
+            from .canon import positive_test
+            found = st.body[0].body[0].value.value
+            cond = st.body[0].test
+            if found:
+                fn_name, elt = "any", cond
+            else:
+                pos = positive_test(cond)
+                fn_name, elt = "all", (pos if pos is not None else ast.UnaryOp(op=ast.Not(), operand=cond))
+            gen = ast.GeneratorExp(elt=elt, generators=[ast.comprehension(target=st.target, iter=st.iter, ifs=[], is_async=0)])
+            new = ast.Return(value=ast.Call(func=ast.Name(id=fn_name, ctx=ast.Load()), args=[gen], keywords=[]))
+            ast.copy_location(new, st)
+            ast.fix_missing_locations(new)
+            out.append(new)
+            stats["anyall"] += 1
+            i += 2
+            continue
+        if in_function and isinstance(st, ast.If) and i + 1 < len(body) and isinstance(body[i + 1], ast.Return) and isinstance(body[i + 1].value, ast.Name) and i + 2 == len(body):
+            # single exit: `if a: r = X elif b: r = Y else: r = Z ; return r`  ->  each branch returns
+            r = body[i + 1].value.id
+            sunk = _sink_return(st, r)
+            if sunk is not None:
+                body[i] = sunk
+                del body[i + 1]
+                stats["sink"] += 1
+                continue
         if in_function and isinstance(st, ast.If) and st.orelse and st.body and isinstance(st.body[-1], EXITS):
             rest = st.orelse
             st.orelse = []
@@ -308,7 +377,7 @@ def _walk(node: ast.AST, in_function: bool, stats: Dict[str, int], fn) -> None:
 
 
 def normalise_tree(tree: ast.Module) -> Dict[str, int]:
-    stats = {"docstring": 0, "logging": 0, "else": 0, "tempreturn": 0, "annotation": 0, "ifexp": 0, "loop2comp": 0, "setupdate": 0}
+    stats = {"docstring": 0, "logging": 0, "else": 0, "tempreturn": 0, "annotation": 0, "ifexp": 0, "loop2comp": 0, "setupdate": 0, "flip": 0, "anyall": 0, "sink": 0}
     _walk(tree, False, stats, None)
     for n in ast.walk(tree):
         if isinstance(n, (ast.FunctionDef, ast.AsyncFunctionDef)):
@@ -342,8 +411,17 @@ def _bound_names(fn: ast.AST) -> set:
 def fold_constants(repo) -> int:
     """replace every Name that resolves (through the imports of the analysed tree) to a module-level scalar / tuple
     constant by its value.  Returns the number of names folded."""
-    from .canon import ExprCanon, is_foldable
+    from .canon import ExprCanon, is_foldable, sig_from_table
     total = 0
+    # signatures of the analysed tree, by bare function name (the same name-based lookup is used for rule patterns, with
+    # the signatures of the pinned tree)
+    table: Dict[str, list] = {}
+    for m in repo.modules.values():
+        for fi in m.functions.values():
+            a = fi.node.args
+            table.setdefault(fi.node.name, []).append({"pos": [x.arg for x in a.posonlyargs + a.args], "kwonly": [x.arg for x in a.kwonlyargs], "vararg": bool(a.vararg),
+                                                       "method": fi.cls is not None, "static": any(getattr(d, "id", "") == "staticmethod" for d in fi.node.decorator_list)})
+    sigs = sig_from_table(table)
     for m in repo.modules.values():
         cache = {}
         count = [0]
@@ -368,7 +446,7 @@ def fold_constants(repo) -> int:
             for i, st in enumerate(body):
                 if isinstance(st, (ast.FunctionDef, ast.AsyncFunctionDef)):
                     b = bound | _bound_names(st)
-                    c = ExprCanon(const, b)
+                    c = ExprCanon(const, b, sigs)
                     st.body = [c.visit(x) for x in st.body]
                     st.args = c.visit(st.args)  # default values
                 elif isinstance(st, ast.ClassDef):
@@ -376,7 +454,7 @@ def fold_constants(repo) -> int:
                 elif isinstance(st, (ast.Import, ast.ImportFrom, ast.Global, ast.Nonlocal)):
                     continue
                 else:
-                    body[i] = ExprCanon(const, bound).visit(st)
+                    body[i] = ExprCanon(const, bound, sigs).visit(st)
         do_block(m.tree.body, set())
         ast.fix_missing_locations(m.tree)
         m.constants_folded = count[0]
